@@ -79,7 +79,7 @@ c.returns("lookup_by_hex_of_class_id",
 
 # ------------------------------------------------------------------------------------------------
 # Build-configuration role assignments.  BuildConfiguration(file) is ASSUMED to yield the dict of the SB_CONFIG_* entries
-# of the file (its line parser `_parse` is verified separately below); the configuration is modelled for the three
+# of the file (the line parser `_parse` is NOT under contract: exercised by the stand-ins of C13 and C19 through real .config files); the configuration is modelled for the three
 # configurable roles in two file orders, every combination of presence and arbitrary vendor/class strings.
 FCFG = "build_configuration/configuration.py"
 NAMES = ["ROOT", "APP_LOCAL_1", "RAD_LOCAL_1"]
@@ -96,7 +96,7 @@ def _cfg_type(order):
 
 c = Contract(FCFG, "BuildConfiguration.__init__", ["C13"])
 c.model_only = True
-c.modular_only_reason = "file reading + line loop; assumed to populate the dict with the entries of the file (line parser verified separately)"
+c.modular_only_reason = "file reading + line loop; assumed to populate the dict with the entries of the file (exercised on real .config files by the stand-ins of C13 and C19)"
 c.param("self", Obj(FCFG, "BuildConfiguration"))
 c.param("input_file", Str())
 # the configuration modelled for EnvelopeStorage.__init__ (every configured class id is compared with every default: one path per
